@@ -261,6 +261,28 @@ def cmd_forkcheck(a):
     return 1 if bad else 0
 
 
+def cmd_realmp(a):
+    """C16 (b): short histories with the REAL multiprocessing.Lock / Condition / Manager().list() in one
+    process (seam off). Validates the simulated multiprocessing primitives against the real ones; not part
+    of the registered checks because manager server processes are outside the simulator's control."""
+    os.environ.setdefault("PYTHONHASHSEED", "0")
+    from sim import registry, props
+    registry._ensure()
+    part = props.real_mp_part()
+    n = bad = 0
+    for idx, prog in part.items(a.seed, "quick", 0, 1):
+        res = part.run(prog)
+        n += 1
+        if res.harness_error or res.violations:
+            bad += 1
+            print("REAL-MP disagreement", idx, (res.harness_error or "")[-300:],
+                  [v.sig for v in res.violations][:3])
+        if n >= a.n:
+            break
+    print("realmp: %d histories with real multiprocessing primitives, %d disagreements with the model" % (n, bad))
+    return 1 if bad else 0
+
+
 def snapshot_only(prog):
     """In-process crash snapshot without running the recovery."""
     from sim import single, seam, world as W
@@ -285,7 +307,7 @@ def snapshot_only(prog):
 
 def main():
     ap = argparse.ArgumentParser()
-    ap.add_argument("cmd", choices=["determinism", "mutants", "forkcheck", "digest-dump"])
+    ap.add_argument("cmd", choices=["determinism", "mutants", "forkcheck", "realmp", "digest-dump"])
     ap.add_argument("--n", type=int, default=120)
     ap.add_argument("--seed", type=int, default=7)
     ap.add_argument("--props", action="append")
@@ -300,7 +322,7 @@ def main():
     if a.cmd == "digest-dump":
         a.props = a.props or []
         return cmd_digest_dump(a)
-    rc = {"determinism": cmd_determinism, "mutants": cmd_mutants, "forkcheck": cmd_forkcheck}[a.cmd](a)
+    rc = {"determinism": cmd_determinism, "mutants": cmd_mutants, "forkcheck": cmd_forkcheck, "realmp": cmd_realmp}[a.cmd](a)
     sys.exit(rc)
 
 
